@@ -99,7 +99,7 @@ CLAIMED = {
     ),
     "C04": dict(
         category="exploration",
-        text="120k certificates generated field by field (genesis / standard, every signed entity type with boundary beacons, metadata strings incl. empty / shared prefixes / escapes, 0-6 signers, timestamps over the whole i64-nanosecond range, phi_f incl. every fixed-point rounding tie and its neighbours, real keys and signatures from a per-run pool of honest chains) each with ONE generated change of one field: the two hashes must differ exactly when the harness-side canonical forms differ (phi_f compared at U8F24). 60k protocol-message pairs over the honest value grammar related by boundary moves, drop / add / swap / re-key of parts: different maps => different digests. 40k wire round trips Certificate -> CertificateMessage -> JSON text -> re-serialised text (field order, whitespace, number formatting, escapes, optional fields absent / null) -> Certificate: stored and recomputed hash, signed message and the verdicts of the real verifier are preserved. Found one genuine defect (repaired: float round trip); the two documented discriminant collisions are open known findings with witnesses; 8 of 8 hash mutants caught.",
+        text="120k certificates generated field by field (genesis / standard, every signed entity type with boundary beacons, metadata strings incl. empty / shared prefixes / escapes / values differing only in letter case, 0-6 signers, timestamps over the whole i64-nanosecond range, phi_f incl. every fixed-point rounding tie and its neighbours, real keys and signatures from a per-run pool of honest chains) each with ONE generated change of one field: the two hashes must differ exactly when the harness-side canonical forms differ (phi_f compared at U8F24). 60k protocol-message pairs over the honest value grammar related by boundary moves, drop / add / swap / re-key of parts: different maps => different digests. 40k wire round trips Certificate -> CertificateMessage -> JSON text -> re-serialised text (field order, whitespace, number formatting, escapes, optional fields absent / null) -> Certificate: stored and recomputed hash, signed message and the verdicts of the real verifier are preserved. Genesis signatures are arbitrary 64-byte strings turned into Ed25519 signatures without the key codec under test. Found one genuine defect (repaired: float round trip); the two documented discriminant collisions are open known findings with witnesses; 8 of 8 hash mutants and 6 of 6 seeded changes caught.",
         note="Trusted: SHA-256, hex / JSON key codecs (C05), STM / Ed25519 verification. ancillary prover/verifier data are uninhabited without the future_snark feature (absent vs null is exercised on the wire). Protocol message values inside the honest grammar only.",
         technique="property-based testing: single-field perturbation (injectivity), boundary-move pairs, JSON re-serialisation round trips (proptest)",
         design_ref="DESIGN.md §2 C04",
@@ -147,7 +147,7 @@ CLAIMED = {
     ),
     "C18": dict(
         category="exploration",
-        text="Layer 1: 50k model-checked op sequences (acquire, give back item, drop, refresh exactly as compute_cache does it, raw give-backs, reset, count; pool sizes 1-4, real 1 ms timeouts) on the real crate. Layer 2: 100k generated (scripts, interleaving) schedules of the working tree's resource_pool.rs recompiled against shuttle's Mutex/Condvar by a build script (refuses, exit 2, if the sync import is not found exactly once or an unmodelled primitive appears); the interleaving is generated choice data consumed by a custom scheduler, so replays are exact and shrinking minimises preemptions; timeouts are modelled by a timer task. Oracle: the statement itself, evaluated from harness-side generation tags and drop hooks (stale resource served / re-admitted, count > size, waiter still blocked at quiescence with a non-empty pool, deadlock, panic). Found three genuine defects (repaired); silent on the repaired tree, exits 1 on 8 mutants.",
+        text="Layer 1: 50k model-checked op sequences (acquire, give back item, drop, refresh exactly as compute_cache does it, raw give-backs, reset, count; pool sizes 1-4, real 1 ms timeouts) on the real crate. Layer 2: 100k generated (scripts, interleaving) schedules of the working tree's resource_pool.rs recompiled against shuttle's Mutex/Condvar by a build script (refuses, exit 2, if the sync import is not found exactly once or an unmodelled primitive appears); the interleaving is generated choice data consumed by a custom scheduler, so replays are exact and shrinking minimises preemptions; timeouts are modelled by a timer task. Layer 3: 6000 generated histories of the aggregator's two real provers (MithrilProverService and LegacyMithrilProverService, pool sizes 1-3) over harness chain data that is rolled back and re-imported: proof computations are held in flight at their first leaf lookup (harness Merkle-tree storer), and compute_cache itself is held at its k-th log record (harness logger: start, each parallel clone, drain, refill, completion) while chosen in-flight computations end; every proof started after a completed refresh must carry the Merkle root the harness computes from the data of that refresh. Oracle of layers 1-2: the statement itself, evaluated from harness-side generation tags and drop hooks (stale resource served / re-admitted, count > size, waiter still blocked at quiescence with a non-empty pool, deadlock, panic). Found three genuine defects (repaired); silent on the repaired tree, exits 1 on 8 mutants and on 6 of 6 seeded changes.",
         note="Trusts shuttle 0.9.3 Mutex/Condvar semantics and the textual rewrite of the sync import; one refresher at a time; timeouts fire only at quiescence; sequentially consistent interleavings at lock/wait/notify granularity (weak-memory effects out of scope). Concurrency is sampled, not exhaustive.",
         technique="property-based testing: model-based op sequences + controlled-schedule concurrency testing (source recompiled against shuttle, generated schedules)",
         design_ref="DESIGN.md §2 C18",
@@ -155,7 +155,7 @@ CLAIMED = {
     ),
     "C19": dict(
         category="exploration",
-        text="About 4000 real download_unpack calls per quick run (real ClientBuilder client, real HttpFileDownloader with the tar/zstd/gzip unpacker wrapped in the default retry stack, real AncillaryVerifier with a harness ed25519 key) against harness mirrors behind file:// locations (about 6% over a loopback HTTP server for the streaming branch). Archives come from a raw tar writer: 21 kinds of immutable-archive extras (ledger/, volatile/, top level, nested, marker shadowing, numbers outside range / beyond beacon, absolute and .. paths, symlinks, hardlinks, GNU long names, truncated tar, cut compressed stream), 9 ancillary extras, 13 manifest alterations; faults: missing location, corrupt/truncated archive, blocked final move, second mirrors, and a FIFO-synchronised abort while the ancillary download is provably in flight. Oracle: an independent containment rule on the resulting directory tree from harness bookkeeping (new files must be requested-range trio names, markers with the exact content after Ok, or (path, sha256) pairs of the one manifest the harness signed; nothing of the ancillary archive after a failed verification; user files and the sentinel parent untouched; honest downloads deliver exactly the expected files). Ten mutants caught; five finding classes are open known findings.",
+        text="About 4000 real download_unpack calls per quick run (real ClientBuilder client, real HttpFileDownloader with the tar/zstd/gzip unpacker wrapped in the default retry stack, real AncillaryVerifier with a harness ed25519 key) against harness mirrors behind file:// locations (about 6% over a loopback HTTP server for the streaming branch). Archives come from a raw tar writer: 22 kinds of immutable-archive extras (ledger/, volatile/, top level, nested, marker shadowing, numbers outside range / beyond beacon, absolute and .. paths, symlinks, hardlinks, GNU long names, unusual entry names: not valid UTF-8, hidden, blanks, backslash, other letter case, control and multi-byte characters; truncated tar, cut compressed stream), 10 ancillary extras, 14 manifest alterations (among them a listed path respelled: separator, letter case, trailing blank, served under that spelling with the genuine signature); faults: missing location, corrupt/truncated archive, blocked final move, second mirrors, and a FIFO-synchronised abort while the ancillary download is provably in flight. Oracle: an independent containment rule on the resulting directory tree from harness bookkeeping (new files must be requested-range trio names, markers with the exact content after Ok, or (path, sha256) pairs of the one manifest the harness signed; nothing of the ancillary archive after a failed verification; user files and the sentinel parent untouched; honest downloads deliver exactly the expected files). Ten mutants caught; five finding classes are open known findings.",
         note="Trusted base: the harness signer stands for the ancillary key holder; the snapshot message shape is honest; tar/zstd/flate2 crates as shipped. Interleavings of parallel downloads are sampled only through the sequential order plus one synchronised abort schedule. Empty directories are ignored.",
         technique="property-based testing with fault injection: generated hostile tar/zstd/gzip mirrors, directory-tree containment oracle, signed-manifest bookkeeping, FIFO-synchronised abort injection (proptest)",
         design_ref="DESIGN.md §2 C19",
